@@ -43,6 +43,7 @@ static void h_cache_free_sized(void *p, int is_net)
 /* ------------------------------------------------------------------ client side */
 #define MAXH 8192
 static vbi_cache *ca;
+static unsigned long h_limit0; static unsigned int h_nlimit0;   /* as set by vbi_cache_new () */
 static int deleted;
 static cache_page *ph[MAXH]; static int ph_held[MAXH]; static int n_ph;
 static struct { int pgno, subno, tag; } ph_exp[MAXH];
@@ -222,6 +223,7 @@ static void reset_case(void)
 	h_live_pages = h_live_nets = 0;
 	n_ph = n_nh = 0; deleted = 0;
 	ca = vbi_cache_new();
+	h_limit0 = ca->memory_limit; h_nlimit0 = ca->n_networks_limit;
 }
 
 static void page_out(cache_page *cp)
@@ -279,7 +281,7 @@ int main(void)
 			       HASH_SIZE, sizeof(*cp) - sizeof(cp->data), sizeof(cp->data.lop), sizeof(cp->data.enh_lop),
 			       sizeof(cp->data.ext_lop), sizeof(cp->data.pop), sizeof(cp->data.drcs), sizeof(cp->data.ait),
 			       sizeof(*cp), N_ELEMENTS(((cache_network *) 0)->_pages), 20 /* death_row: see gen_cache.py */,
-			       ca->memory_limit, ca->n_networks_limit, (int) VBI_NONSTD_SUBPAGES, (int) VBI_UNKNOWN_PAGE,
+			       h_limit0, h_nlimit0, (int) VBI_NONSTD_SUBPAGES, (int) VBI_UNKNOWN_PAGE,
 			       (int) VBI_ANY_SUBNO);
 		} else if (!strcmp(op, "dump") && h_ntok == 1) {
 			build_dump(); printf("ok %.*s\n", (int) dlen, dbuf);
